@@ -324,6 +324,12 @@ def loops_in(toks, m, lo, hi):
             while j < hi and toks[j].s != "{":
                 if toks[j].k == "o": j = m[j]
                 j += 1
+            # a block inside a `while` condition (`while let P = match e {..} { body }`): the body is the block that is not followed by another
+            while t.s == "while" and m[j] + 1 < hi and toks[m[j] + 1].s in ("{", "invariant", "invariant_except_break", "decreases", "ensures"):
+                j = m[j] + 1
+                while j < hi and toks[j].s != "{":      # (generated text: the spliced loop clauses stand between condition and body)
+                    if toks[j].k == "o": j = m[j]
+                    j += 1
             res.append((i, j, m[j]))
         i += 1
     return res
@@ -865,7 +871,9 @@ def r14_outline(toks, stats, outlines):
         if toks[b].s != "{": raise ExtractError("R14: %r is not followed by a block" % anchor)
         new = T(call)
         for x in new: x.line = toks[i].line
-        if keep_anchor:
+        if len(entry) > 2 and entry[2] == "whole":
+            toks[i: m[b] + 1] = new           # the anchor and its block are replaced (a whole `match E {..}` statement)
+        elif keep_anchor:
             toks[b: m[b] + 1] = new           # only the block is replaced (closure parameter list stays)
         else:
             toks[i + len(p) - 1: m[b] + 1] = new
